@@ -65,6 +65,7 @@ def midIters (n : Node) (its : List Nat) : List Nat :=
   match n.kind with
   | .loop r => if n.kids.isEmpty then its else r :: its
   | .apply ts => ts.length :: its
+  | .uses ts => ts.length :: its
   | _ => its
 
 theorem popIters_midIters (n : Node) (its : List Nat) : popIters n (midIters n its) = its := by
@@ -75,6 +76,17 @@ theorem popIters_midIters (n : Node) (its : List Nat) : popIters n (midIters n i
   | block => simp [popIters, midIters, h]
   | call t => simp [popIters, midIters, h]
   | pick i => simp [popIters, midIters, h]
+  | uses ts => simp [popIters, midIters, h]
+
+/-- where an element goes when no (further) template / attribute set is to be run -/
+def tmplsDone (n : Node) (a : Addr) : Phase :=
+  match n.kind with
+  | .uses _ => if n.kids.isEmpty then .ending a else .starting (child a 0)
+  | _ => .ending a
+
+theorem nextTemplate_end (ts : List Nat) (rest : List Nat) :
+    nextTemplate ts (ts.length :: rest) = (none, ts.length :: rest) := by
+  simp [nextTemplate]
 
 /-- phase and node-list stack right after the last child of `a` has ended -/
 def afterKids (n : Node) (a : Addr) (its : List Nat) : Phase × List Nat :=
@@ -94,9 +106,10 @@ theorem step_starting {P : Prog} {a : Addr} {n : Node} (h : lookup P a = some n)
   simp only [step, h]
   cases (startNext n a its).1 <;> rfl
 
-theorem step_ending_child {P : Prog} {a : Addr} {n c : Node} (h : lookup P a = some n)
-    (hk : n.kind ≠ .leaf) (hp : ∀ j, n.kind ≠ .pick j) (i : Nat) (hc : lookup P (child a i) = some c)
-    (stk : List (Option Addr)) (its : List Nat) (tr : List Ev) :
+theorem step_ending_child {P : Prog} {a : Addr} {n c : Node} {its : List Nat} (h : lookup P a = some n)
+    (hk : n.kind ≠ .leaf) (hp : ∀ j, n.kind ≠ .pick j)
+    (hu : ∀ ts, n.kind = .uses ts → ∃ rest, its = ts.length :: rest) (i : Nat) (hc : lookup P (child a i) = some c)
+    (stk : List (Option Addr)) (tr : List Ev) :
     step P ⟨.ending (child a i), pushIf c.kind (child a i) stk, midIters c its, tr⟩ =
       ⟨(if i + 1 < n.kids.length then .starting (child a (i + 1)) else (afterKids n a its).1), stk,
        (if i + 1 < n.kids.length then its else (afterKids n a its).2), tr ++ [.stop (child a i)]⟩ := by
@@ -125,6 +138,12 @@ theorem step_ending_child {P : Prog} {a : Addr} {n c : Node} (h : lookup P a = s
     · simp only [hi, if_false]
       cases hnt : (nextTemplate ts (0 :: its)).1 <;> simp [hnt]
   | pick j => exact absurd hkind (hp j)
+  | uses ts =>
+    obtain ⟨rest, hr⟩ := hu ts hkind
+    subst hr
+    simp only [child] at hns ⊢
+    simp only [nextTemplate_end, afterKids, hkind, hns]
+    by_cases hi : i + 1 < n.kids.length <;> simp [hi]
 
 /-- the one child an `xsl:choose` selected ends: the choose ends -/
 theorem step_ending_picked {P : Prog} {a : Addr} {n c : Node} {j : Nat} (h : lookup P a = some n)
@@ -144,13 +163,18 @@ theorem step_ending_template_call {P : Prog} {a : Addr} {n nt : Node} {t : Nat} 
 
 /-- … for an apply-templates the next selected node's template is looked up -/
 theorem step_ending_template_apply {P : Prog} {a : Addr} {n nt : Node} {ts : List Nat} {t : Nat}
-    (h : lookup P a = some n) (hk : n.kind = .apply ts) (ht : lookup P (t, []) = some nt)
+    (h : lookup P a = some n) (hk : n.kind = .apply ts ∨ n.kind = .uses ts) (ht : lookup P (t, []) = some nt)
     (stk : List (Option Addr)) (its : List Nat) (tr : List Ev) :
     step P ⟨.ending (t, []), pushIf nt.kind (t, []) (some a :: stk), midIters nt its, tr⟩ =
-      ⟨(match (nextTemplate ts its).1 with | some c => .starting c | none => .ending a),
+      ⟨(match (nextTemplate ts its).1 with | some c => .starting c | none => tmplsDone n a),
        some a :: stk, (nextTemplate ts its).2, tr ++ [.stop (t, [])]⟩ := by
-  simp only [step, ht, popIf_pushIf, popIters_midIters, getInvoker, List.headD_cons, getNextChild, h, hk]
-  cases (nextTemplate ts its).1 <;> simp
+  rcases hk with hk | hk
+  · simp only [step, ht, popIf_pushIf, popIters_midIters, getInvoker, List.headD_cons, getNextChild, h, hk, tmplsDone]
+    cases (nextTemplate ts its).1 <;> simp
+  · simp only [step, ht, popIf_pushIf, popIters_midIters, getInvoker, List.headD_cons, getNextChild, h, hk, tmplsDone]
+    cases (nextTemplate ts its).1 with
+    | none => cases hke : n.kids.isEmpty <;> simp [hke]
+    | some x => simp
 
 theorem recBody_lookup {P : Prog} {f : Nat} {a : Addr} {tr : List Ev} (h : recBody P f a = some tr) :
     ∃ n, lookup P a = some n := by
@@ -183,7 +207,8 @@ theorem sim (P : Prog) : ∀ (f : Nat),
         ∃ k, iter P k ⟨.starting a, stk, its, pre⟩ = ⟨.ending a, pushIf n.kind a stk, midIters n its, pre ++ tr⟩) ∧
     -- (B) the children i … of an element
     (∀ (a : Addr) (n : Node) (i : Nat) (stk : List (Option Addr)) (its : List Nat) (pre tr : List Ev),
-        lookup P a = some n → n.kind ≠ .leaf → (∀ j, n.kind ≠ .pick j) → i < n.kids.length →
+        lookup P a = some n → n.kind ≠ .leaf → (∀ j, n.kind ≠ .pick j) →
+        (∀ ts, n.kind = .uses ts → ∃ rest, its = ts.length :: rest) → i < n.kids.length →
         recKids P f a i n.kids.length = some tr →
         ∃ k, iter P k ⟨.starting (child a i), stk, its, pre⟩ = ⟨(afterKids n a its).1, stk, (afterKids n a its).2, pre ++ tr⟩) ∧
     -- (C) the remaining passes of a for-each, from the point where the next node is asked for
@@ -194,17 +219,17 @@ theorem sim (P : Prog) : ∀ (f : Nat),
               ⟨.ending a, stk, r :: rest, pre ++ tr⟩) ∧
     -- (D) the remaining templates of an apply-templates, from the point where the next template is looked up
     (∀ (a : Addr) (n : Node) (ts : List Nat) (c : Nat) (stk : List (Option Addr)) (rest : List Nat) (pre tr : List Ev),
-        lookup P a = some n → n.kind = .apply ts → c ≤ ts.length →
+        lookup P a = some n → (n.kind = .apply ts ∨ n.kind = .uses ts) → c ≤ ts.length →
         recTemplates P f (ts.drop c) = some tr →
-        ∃ k, iter P k ⟨(match (nextTemplate ts (c :: rest)).1 with | some x => .starting x | none => .ending a),
+        ∃ k, iter P k ⟨(match (nextTemplate ts (c :: rest)).1 with | some x => .starting x | none => tmplsDone n a),
                         some a :: stk, (nextTemplate ts (c :: rest)).2, pre⟩ =
-              ⟨.ending a, some a :: stk, ts.length :: rest, pre ++ tr⟩) := by
+              ⟨tmplsDone n a, some a :: stk, ts.length :: rest, pre ++ tr⟩) := by
   intro f
   induction f with
   | zero =>
     refine ⟨?_, ?_, ?_, ?_⟩
     · intro a n stk its pre tr _ h; simp [recBody] at h
-    · intro a n i stk its pre tr _ _ _ _ h; simp [recKids] at h
+    · intro a n i stk its pre tr _ _ _ _ _ h; simp [recKids] at h
     · intro a n r c q stk rest pre tr _ _ _ _ h; simp [recIters] at h
     · intro a n ts c stk rest pre tr _ _ _ h; simp [recTemplates] at h
   | succ f ih =>
@@ -230,7 +255,7 @@ theorem sim (P : Prog) : ∀ (f : Nat),
           simp [iter, step_starting hl, startNext, hkind, hk0, pushIf, midIters]
         · have hpos : 0 < n.kids.length := Nat.pos_of_ne_zero hempty
           have hk0 := not_isEmpty_of_length hpos
-          obtain ⟨k, hk⟩ := ihB a n 0 stk its (pre ++ [.start a]) ks hl (by simp [hkind]) (by simp [hkind]) hpos hks
+          obtain ⟨k, hk⟩ := ihB a n 0 stk its (pre ++ [.start a]) ks hl (by simp [hkind]) (by simp [hkind]) (by simp [hkind]) hpos hks
           refine ⟨1 + k, ?_⟩
           rw [iter_add]
           simp only [iter, step_starting hl, startNext, hkind, hk0, pushIf, Bool.false_eq_true, if_false]
@@ -261,7 +286,7 @@ theorem sim (P : Prog) : ∀ (f : Nat),
               simp [midIters, hkind]
             · have hpos : 0 < n.kids.length := Nat.pos_of_ne_zero hempty
               have hk0 := not_isEmpty_of_length hpos
-              obtain ⟨k1, hk1⟩ := ihB a n 0 (some a :: stk) its (pre ++ [.start a]) ps hl (by simp [hkind]) (by simp [hkind]) hpos hps
+              obtain ⟨k1, hk1⟩ := ihB a n 0 (some a :: stk) its (pre ++ [.start a]) ps hl (by simp [hkind]) (by simp [hkind]) (by simp [hkind]) hpos hps
               refine ⟨1 + (k1 + (k2 + 1)), ?_⟩
               rw [iter_add, iter_add, iter_add]
               simp only [iter, step_starting hl, startNext, hkind, hk0, pushIf, Bool.false_eq_true, if_false]
@@ -302,7 +327,8 @@ theorem sim (P : Prog) : ∀ (f : Nat),
           | some bs =>
             simp only [hps, hbs, Option.some.injEq] at hrec
             subst hrec
-            obtain ⟨k2, hk2⟩ := ihD a n ts 0 stk its (pre ++ [.start a] ++ ps) bs hl hkind (by omega) (by simpa using hbs)
+            obtain ⟨k2, hk2⟩ := ihD a n ts 0 stk its (pre ++ [.start a] ++ ps) bs hl (Or.inl hkind) (by omega) (by simpa using hbs)
+            simp only [tmplsDone, hkind] at hk2
             by_cases hempty : n.kids.length = 0
             · have hk0 := isEmpty_of_length hempty
               have : ps = [] := recKids_done hps (by omega)
@@ -315,7 +341,7 @@ theorem sim (P : Prog) : ∀ (f : Nat),
               simp [midIters, hkind]
             · have hpos : 0 < n.kids.length := Nat.pos_of_ne_zero hempty
               have hk0 := not_isEmpty_of_length hpos
-              obtain ⟨k1, hk1⟩ := ihB a n 0 (some a :: stk) its (pre ++ [.start a]) ps hl (by simp [hkind]) (by simp [hkind]) hpos hps
+              obtain ⟨k1, hk1⟩ := ihB a n 0 (some a :: stk) its (pre ++ [.start a]) ps hl (by simp [hkind]) (by simp [hkind]) (by simp [hkind]) hpos hps
               refine ⟨1 + (k1 + k2), ?_⟩
               rw [iter_add, iter_add]
               simp only [iter, step_starting hl, startNext, hkind, hk0, pushIf, Bool.false_eq_true, if_false]
@@ -340,8 +366,42 @@ theorem sim (P : Prog) : ∀ (f : Nat),
           subst hrec
           refine ⟨1, ?_⟩
           simp [iter, step_starting hl, startNext, hkind, hj, pushIf, midIters]
+      | uses ts =>
+        simp only [hkind] at hrec
+        cases hbs : recTemplates P f ts with
+        | none => simp [hbs] at hrec
+        | some bs =>
+          cases hks : recKids P f a 0 n.kids.length with
+          | none => simp [hbs, hks] at hrec
+          | some ks =>
+            simp only [hbs, hks, Option.some.injEq] at hrec
+            subst hrec
+            obtain ⟨k1, hk1⟩ := ihD a n ts 0 stk its (pre ++ [.start a]) bs hl (Or.inr hkind) (by omega) (by simpa using hbs)
+            have hstart : iter P 1 ⟨.starting a, stk, its, pre⟩ =
+                ⟨(match (nextTemplate ts (0 :: its)).1 with | some x => .starting x | none => tmplsDone n a),
+                 some a :: stk, (nextTemplate ts (0 :: its)).2, pre ++ [.start a]⟩ := by
+              simp only [iter, step_starting hl, startNext, hkind, pushIf, tmplsDone]
+              cases (nextTemplate ts (0 :: its)).1 with
+              | none => cases hke : n.kids.isEmpty <;> simp [hke]
+              | some x => simp
+            by_cases hempty : n.kids.length = 0
+            · have hk0 := isEmpty_of_length hempty
+              have : ks = [] := recKids_done hks (by omega)
+              subst this
+              refine ⟨1 + k1, ?_⟩
+              rw [iter_add, hstart, hk1]
+              simp [tmplsDone, hkind, hk0, midIters, pushIf]
+            · have hpos : 0 < n.kids.length := Nat.pos_of_ne_zero hempty
+              have hk0 := not_isEmpty_of_length hpos
+              obtain ⟨k2, hk2⟩ := ihB a n 0 (some a :: stk) (ts.length :: its) (pre ++ [.start a] ++ bs) ks hl
+                (by simp [hkind]) (by simp [hkind]) (by intro ts' h'; rw [hkind] at h'; cases h'; exact ⟨its, rfl⟩) hpos hks
+              refine ⟨1 + (k1 + k2), ?_⟩
+              rw [iter_add, hstart, iter_add, hk1]
+              simp only [tmplsDone, hkind, hk0, Bool.false_eq_true, if_false]
+              rw [hk2]
+              simp [afterKids, hkind, midIters, pushIf]
     · -- (B)
-      intro a n i stk its pre tr hl hk hp hi hrec
+      intro a n i stk its pre tr hl hk hp hu hi hrec
       simp only [recKids, hi, if_true] at hrec
       cases hc : recBody P f (child a i) with
       | none => simp [hc] at hrec
@@ -353,9 +413,9 @@ theorem sim (P : Prog) : ∀ (f : Nat),
           subst hrec
           obtain ⟨nc, hnc⟩ := recBody_lookup hc
           obtain ⟨k1, hk1⟩ := ihA (child a i) nc stk its pre c hnc hc
-          have hstep := step_ending_child hl hk hp i hnc stk its (pre ++ c)
+          have hstep := step_ending_child hl hk hp hu i hnc stk (pre ++ c)
           by_cases hnext : i + 1 < n.kids.length
-          · obtain ⟨k2, hk2⟩ := ihB a n (i + 1) stk its (pre ++ c ++ [.stop (child a i)]) r hl hk hp hnext hr
+          · obtain ⟨k2, hk2⟩ := ihB a n (i + 1) stk its (pre ++ c ++ [.stop (child a i)]) r hl hk hp hu hnext hr
             refine ⟨k1 + (1 + k2), ?_⟩
             rw [iter_add, iter_add, hk1]
             simp only [iter, hstep, hnext, if_true]
@@ -387,7 +447,7 @@ theorem sim (P : Prog) : ∀ (f : Nat),
             simp only [hks, hrs, Option.some.injEq] at hrec
             subst hrec
             have hlt : c < r := by omega
-            obtain ⟨k1, hk1⟩ := ihB a n 0 stk ((c + 1) :: rest) pre ks hl (by simp [hkind]) (by simp [hkind]) hpos hks
+            obtain ⟨k1, hk1⟩ := ihB a n 0 stk ((c + 1) :: rest) pre ks hl (by simp [hkind]) (by simp [hkind]) (by simp [hkind]) hpos hks
             obtain ⟨k2, hk2⟩ := ihC a n r (c + 1) q' stk rest (pre ++ ks) rs hl hkind hpos (by omega) hrs
             refine ⟨k1 + k2, ?_⟩
             rw [iter_add]
